@@ -5,6 +5,10 @@
 
 use std::cell::Cell;
 
+use crate::delimiters::Delimiters;
+use crate::errors::TeraResult;
+use crate::parsing::Chunk;
+use crate::template::Template;
 use crate::vm::state::State;
 
 thread_local! {
@@ -39,4 +43,88 @@ pub fn take_residue() -> (Option<(usize, usize, usize)>, u64) {
     let r = RESIDUE.with(|c| c.take());
     let n = RESIDUE_CHECKS.with(|c| c.replace(0));
     (r, n)
+}
+
+thread_local! {
+    /// Whether `Chunk::optimize` does anything on this thread.
+    static OPTIMIZER_ON: Cell<bool> = const { Cell::new(true) };
+}
+
+pub(crate) fn optimizer_enabled() -> bool {
+    OPTIMIZER_ON.with(|c| c.get())
+}
+
+/// Runs `f` with the bytecode fusion pass switched on or off for templates compiled on this
+/// thread while `f` runs. The previous setting is restored afterwards, also on unwind.
+pub fn with_optimizer<R>(enabled: bool, f: impl FnOnce() -> R) -> R {
+    struct Restore(bool);
+    impl Drop for Restore {
+        fn drop(&mut self) {
+            OPTIMIZER_ON.with(|c| c.set(self.0));
+        }
+    }
+    let _restore = Restore(OPTIMIZER_ON.with(|c| c.replace(enabled)));
+    f()
+}
+
+/// One instruction of a listing: its `Debug` rendering and the byte ranges of its spans.
+#[derive(Debug, Clone, PartialEq, Eq)]
+pub struct InstructionListing {
+    /// `Debug` output of the instruction
+    pub text: String,
+    /// Byte range of every span attached to the instruction
+    pub spans: Vec<(usize, usize)>,
+}
+
+/// The instructions of one chunk before and after the fusion pass.
+#[derive(Debug, Clone, PartialEq, Eq)]
+pub struct ChunkListing {
+    /// `main`, `block:<name>` or `component:<name>`
+    pub label: String,
+    /// Instructions as emitted by the compiler
+    pub before: Vec<InstructionListing>,
+    /// Instructions after `Chunk::optimize`
+    pub after: Vec<InstructionListing>,
+}
+
+fn list_chunk(chunk: &Chunk) -> Vec<InstructionListing> {
+    (0..chunk.len())
+        .map(|i| {
+            let (instr, spans) = chunk.get(i).expect("index in range");
+            InstructionListing {
+                text: format!("{instr:?}"),
+                spans: spans.iter().map(|s| (s.range.start, s.range.end)).collect(),
+            }
+        })
+        .collect()
+}
+
+/// Parses and compiles `source` and returns, for the main chunk, every block and every component,
+/// the instruction listing before and after the fusion pass.
+pub fn listings(
+    name: &str,
+    source: &str,
+    delimiters: Delimiters,
+) -> TeraResult<Vec<ChunkListing>> {
+    let tpl = with_optimizer(false, || Template::new(name, source, None, delimiters))?;
+    let mut chunks: Vec<(String, &Chunk)> = vec![("main".to_string(), &tpl.chunk)];
+    for (n, c) in &tpl.blocks {
+        chunks.push((format!("block:{n}"), c));
+    }
+    for (n, (_, c)) in &tpl.components {
+        chunks.push((format!("component:{n}"), c));
+    }
+    chunks.sort_by(|a, b| a.0.cmp(&b.0));
+    Ok(chunks
+        .into_iter()
+        .map(|(label, chunk)| {
+            let mut optimized = chunk.clone();
+            with_optimizer(true, || optimized.optimize());
+            ChunkListing {
+                label,
+                before: list_chunk(chunk),
+                after: list_chunk(&optimized),
+            }
+        })
+        .collect())
 }
